@@ -23,7 +23,7 @@ PARAMS = [None, [], [1], (), (1, 2), {}, {"a": 1}, 5, "s", True, 0, "", False, 0
 RPCIDS = [None, "", "a", "0", 0, 0.0, 1, -1, 1.5, 2 ** 53]
 VERSIONS = [None, 1.0, 2.0, "1.0", "2.0", 1, 2]
 FLAGS = [None, True]
-CONFIGS = ["default", "v1", "nojsonclass"]
+CONFIGS = ["default", "v1", "nojsonclass", "v1-nojsonclass", "v2int-nojsonclass"]
 
 
 def mkconfig(name):
@@ -31,6 +31,10 @@ def mkconfig(name):
         return jsonrpclib.config.DEFAULT
     if name == "v1":
         return Config(version=1.0)
+    if name == "v1-nojsonclass":
+        return Config(version=1.0, use_jsonclass=False)
+    if name == "v2int-nojsonclass":
+        return Config(version=2, use_jsonclass=False, serialize_method="toJson")
     return Config(use_jsonclass=False)
 
 
